@@ -649,3 +649,62 @@ def config(ctx, d):
         )
     mc = cfg.metrics_config
     ctx.require(list(mc.target_labels) == list(got), "config-metrics-target-labels", lambda: f"{mc.target_labels!r} vs {got!r}")
+
+
+# ------------------------------------------------------------------------------------------------
+# one converter, many calls: each conversion depends on its own arguments only (a dataset loader converts every
+# annotation through the same LabelConverter); added after a seeded change cached the fallback Label per name
+# ------------------------------------------------------------------------------------------------
+
+
+@st.composite
+def strat_converter_histories(draw, tier="quick"):
+    family = draw(st.sampled_from(list(R.FAMILIES)))
+    task = draw(st.sampled_from(list(R.TASKS)))
+    merge = draw(st.booleans())
+    pool = sorted(R.registered_names(family, task)) + ["spaceship", "vehicle.bus.rigid", "human.pedestrian.adult", "Blue", ""]
+    attrs = ["vehicle.moving", "vehicle.parked", "cycle_state.without_rider", "pedestrian_state.sitting"]
+    n = draw(st.integers(2, 12 if tier == "quick" else 40))
+    calls = []
+    names = draw(st.lists(st.sampled_from(pool), min_size=1, max_size=4))
+    for _ in range(n):
+        nm = draw(st.sampled_from(names)) if draw(st.integers(0, 3)) else draw(st.sampled_from(pool))
+        if nm and draw(st.integers(0, 3)) == 0:
+            nm = nm.upper()
+        calls.append([nm, draw(st.lists(st.sampled_from(attrs), max_size=2, unique=True)), draw(st.sampled_from(["label", "label", "name"]))])
+    return {"family": family, "task": task, "merge": merge, "count": draw(st.booleans()), "calls": calls}
+
+
+@CHECK.given("converter_histories", strat_converter_histories, quick=400, thorough=24000)
+def converter_histories(ctx, d):
+    family, task, merge = d["family"], d["task"], d["merge"]
+    conv = None
+    with ctx.under_test("LabelConverter()"):
+        conv = _conv(task, merge, family, d["count"])
+    if conv is None:
+        return
+    seen = {}
+    repeated_unregistered = False
+    for name, attrs, how in d["calls"]:
+        allowed, status, simple = _allowed(family, task, merge, name)
+        if how == "name":
+            with ctx.under_test("convert_name (history)"):
+                got = _val(conv.convert_name(name))
+                ctx.require(got in allowed, "history:wrong-label", lambda: f"convert_name({name!r}) after {len(seen)} earlier calls -> {got}, allowed {allowed}")
+            continue
+        with ctx.under_test("convert_label (history)"):
+            lab = conv.convert_label(name, list(attrs))
+            got = _val(lab.label)
+            ctx.require(got in allowed, "history:wrong-label", lambda: f"convert_label({name!r}) after earlier calls -> {got}, allowed {allowed}")
+            ctx.require(lab.name == name, "history:wrong-name", lambda: f"convert_label({name!r}, ...).name == {lab.name!r}")
+            ctx.require(
+                list(lab.attributes) == list(attrs),
+                "history:wrong-attributes",
+                lambda: f"convert_label({name!r}, {attrs}) returned attributes {lab.attributes} (earlier calls with this name: {seen.get(name.lower())})",
+            )
+        if name.lower() in seen and seen[name.lower()] != attrs and "unregistered" in status:
+            repeated_unregistered = True
+        seen.setdefault(name.lower(), attrs)
+    ctx.mark_nontrivial(len(seen) < len(d["calls"]))
+    if repeated_unregistered:
+        ctx.cls("unregistered_name_repeated_with_other_attributes")
